@@ -45,14 +45,33 @@ Definition apply18 (st : interp) (o : term) : interp :=
     | None => st
     | Some _ => fst (add_context_command st n (NDummy (100 + c)) c)
     end
+  else if is_op18 o "badproc" then
+    (* a definition that is rejected (a parameter with no name): nothing may change *)
+    fst (ev st (list_cmd [lit "proc"; n; list_to_string [[]]; lit "return P"]))
+  else if is_op18 o "selfdef" then
+    (* a procedure that redefines itself, called twice in a row in one script *)
+    let st1 := fst (ev st (list_cmd [lit "proc"; n; []; lit "proc " ++ list_to_string [n] ++ lit " {} {return P}; return Q"])) in
+    fst (ev st1 (list_to_string [n] ++ lit "; " ++ list_to_string [n]))
   else if is_op18 o "proc" then fst (ev st (list_cmd [lit "proc"; n; []; lit "return P"]))
   else if is_op18 o "rename" then fst (ev st (list_cmd [lit "rename"; n; term_str (term_nth o 2)]))
   else fst (ev st (list_cmd [lit "rename"; n; []])).
 
 Definition c18_init : interp := fst (save_context (fst (save_context interp_new))).
 
+(* the second of the two consecutive calls of a self-redefining procedure *)
+Definition selfdef_result (st : interp) (o : term) : term :=
+  let n := term_str (term_nth o 1) in
+  let st1 := fst (ev st (list_cmd [lit "proc"; n; []; lit "proc " ++ list_to_string [n] ++ lit " {} {return P}; return Q"])) in
+  match snd (ev st1 (list_to_string [n] ++ lit "; " ++ list_to_string [n])) with
+  | Ok v => TStr (as_str v)
+  | _ => TStr (lit "<error>")
+  end.
+Definition with_extra (o : term) (extra : term) (obs : term) : term :=
+  if is_op18 o "selfdef" then TList (term_list obs ++ [extra]) else obs.
+
 Definition c18_model_obs (c : term) : term :=
-  TList (rev (snd (fold_left (fun acc o => let st := apply18 (fst acc) o in (st, observe st :: snd acc))
+  TList (rev (snd (fold_left (fun acc o => let st := apply18 (fst acc) o in
+                                           (st, with_extra o (selfdef_result (fst acc) o) (observe st) :: snd acc))
                              (term_list c) (c18_init, [])))).
 
 (* ---- the oracle: an abstract name map and context liveness ---- *)
@@ -75,6 +94,8 @@ Definition spec_step (s : amap18 * list bool) (o : term) : amap18 * list bool :=
     else if is_op18 o "addctx" then
       let c := term_int (term_nth o 2) in
       if nth (Z.to_nat (c - 1)) dropped false then m else a_bind m n (KCtx c)
+    else if is_op18 o "badproc" then m
+    else if is_op18 o "selfdef" then a_bind m n KProc
     else if is_op18 o "proc" then a_bind m n KProc
     else if is_op18 o "rename" then
       match a_find m n with
@@ -105,7 +126,8 @@ Definition spec_observe (s : amap18 * list bool) : term :=
   TList [TList per_name; TStrs bound; TStrs procs; TList (map TBool dropped)].
 
 Definition c18_spec_ok (c obs : term) : bool :=
-  let expected := rev (snd (fold_left (fun acc o => let s := spec_step (fst acc) o in (s, spec_observe s :: snd acc))
+  let expected := rev (snd (fold_left (fun acc o => let s := spec_step (fst acc) o in
+                                                    (s, with_extra o (TStr (lit "P")) (spec_observe s) :: snd acc))
                                       (term_list c) (([], [false; false]), []))) in
   term_eqb obs (TList expected).
 
